@@ -60,7 +60,9 @@ def from_bipartite_pandas_dataframe(
             if line[0] not in simplex_list[line[1]]:
                 simplex_list[line[1]].append(line[0])
 
-        H.add_simplices_from(list(simplex_list.values()))
+        # (members, attr) pairs: a bare list of members starting with a string label
+        # would be mistaken for another format
+        H.add_simplices_from([(members, {}) for members in simplex_list.values()])
     else:
         for line in d.itertuples(index=False):
             node = line[0]
